@@ -7,16 +7,28 @@ for l in open(os.path.join(HERE, "properties.jsonl")):
     p = json.loads(l); props[p["id"]] = p
 
 CHECKS = {
+ "C01": ("exploration", "emitted C (ASan+UBSan, indirect pointer) fed one byte per call on every string up to a length bound over the program's byte classes plus guided walks; every hook (with visible outputs), yield, terminal result and final store checked against a reference interpreter of the procedural reading under explicit timing slack (one-position shift, pending effects lost at errors)", "3 C01", "reference-model monitor (procedural interpreter vf/ri.py) over recorded event logs of sanitized emitted C",
+         "vf/ri.py is the reading of docs/user-ref/parser.md; profile excludes constructs whose meaning is open (actions right after open-ended statements, optional with re-entrant first pattern)"),
  "C02": ("exploration", "sanitized emitted C under an exact-size-chunk / state-relocating driver; all 2^(n-1) chunkings of short inputs and cut-point/random chunkings of long ones compared with the one-byte schedule of the same binary (self-consistency monitor over recorded event logs)", "3 C02", "differential runtime monitoring of emitted C (ASan+UBSan), one-byte schedule as oracle",
          "trusts clang/ASan/UBSan and the driver; offsets observable only in indirect-pointer builds (direct builds: chunk containment)"),
  "C03": ("exploration", "emitted C built with ASan+UBSan+LSan in every string-storage mode, driven with poisoned state, exact-size chunks, relocated state, calls after terminal results, double free() and start/free cycles; string counter/terminator invariants checked after start() and every call; icontract post-condition on the real _generate_set_string", "3 C03", "compiler sanitizers + in-driver invariants + icontract contract on the code generator",
          "ASan is object-granular (intra-struct overflow covered by invariants/contract/dynamic modes); user-written arithmetic UB is skipped"),
+ "C04": ("exploration", "SanitizerCoverage trace-pc-guard step meter in the driver: a call exceeding its edge bound is checked for an exact configuration repeat (guard, state bytes, input position) and escaped with longjmp; yield re-invocation repeats are detected too; workload = round-trip program shapes, long overflowing inputs, forced (state, byte, strings full/empty) grids and candidates from a non-consuming-move cycle finder over the compiled machine, end() from every state", "3 C04", "online runtime monitor (step meter + configuration-repeat detector) in instrumented emitted C",
+         "spin verdict = exact configuration repeat (sound) or 50x the generous per-call edge bound; wall-clock only as watchdog"),
  "C05": ("exploration", "one sanitized binary holding the -O0 build and builds at -O1..-O3 / each optimisation flag and threshold flipped; per-byte event traces compared under the documented one-position slack; icontract post-condition on the real range-check generator", "3 C05", "differential runtime monitoring of emitted C, -O0 build as oracle, plus icontract contract on _generate_condition_for_transition",
          "final store of runs ending without a terminal result is not compared (pending lazy assignments); observed at later events of longer inputs"),
+ "C08": ("exploration", "single-case programs (2-5 clauses, shared prefixes, literals / case-insensitive / regexes, else alone or combined, priorities; greedy ones in a yield loop) whose clauses carry distinct markers, run on all short strings and guided walks; marker, offset and stores checked against the reference interpreter's parallel-automata case rule", "3 C08", "reference-model monitor (parallel derivative automata) over recorded executions of sanitized emitted C",
+         "greedy rule as the property states it: keep consuming while any pattern can continue"),
+ "C09": ("exploration", "deliberately overlapping clause sets and statement pairs `A; B`: exact ambiguity by product search over independently built derivative automata compared with the real compiler's accept/reject verdict; witnesses of accepted-ambiguous programs are executed on the emitted C; accepted clause sets are run with the interpreter's ambiguity recorder on", "3 C09", "verdict monitor on the real compiler against an exact automata-theoretic oracle, plus runtime ambiguity recorder",
+         "only clause sets and statement pairs get the exact test; over-rejection is counted, not flagged"),
+ "C10": ("exploration", "pointer positions of FAIL / DONE / yields against the reference interpreter's consumed-byte count; an online protocol monitor over hostile call histories (OK only at chunk end, FAIL absorbing for feed / zero-length feed / end); normal vs strict-done build differ only by DONE one call later", "3 C10", "online protocol monitor over call histories + reference-model monitor for consumed-byte counts",
+         "end() is the last event of a history; DONE may leave the pointer on the last byte read or past it when postponed"),
  "C11": ("exploration", "gcc -std=c99/-std=c11, clang, g++ (header) with -Wall -Werror -Wno-unused-label, an API-use translation unit and nm run on the text emitted for generated and corpus programs under a covering array of code-generation options", "3 C11", "execution of the real compilers on real output (the compilers are the monitor)",
          "gcc 12 / clang 14 as installed define 'valid C'"),
  "C12": ("exploration", "one sanitized binary holding the default-option build and builds under rows of representation options; strict equality of per-byte traces (codes, output contents and lengths, hook sequence)", "3 C12", "differential runtime monitoring of emitted C, default-option build as oracle",
          "heap blocks are zero-filled in these runs so that reads beyond the written length are deterministic"),
+ "C06": ("translation_validation", "for every machine state x every byte 0..255 and END x data contexts (strings empty / full / random, scalars set) one forced step of the emitted C on a deep copy, compared (return code, resulting state, outputs, hook calls, pointer advance) with an abstract machine executing the DFState/DFTransition/Action objects of the same compilation", "3 C06", "per-program translation validation by forced single-step execution against an abstract machine",
+         "vf/am.py is the reading of what the compiled machine means; DONE postponed by one call after a break is tolerated (judged under C10)"),
  "C07": ("exploration", "emitted C of `/R/; end;` for enumerated small and random larger regexes (text and binary form): acceptance observed at every prefix through end() on a state copy, feed codes and FAIL pointer, and forced one-byte sweeps over all 256 byte values from several automaton states, compared with a Brzozowski-derivative engine", "3 C07", "reference-model monitor (regex derivatives) over recorded executions of sanitized emitted C",
          "vf/rx.py is the language definition (documented dialect)"),
  "C13": ("exploration", "generated programs and their macro-ized twins (slices extracted into nested macros with parameters of every kind) compiled by the real compiler and linked into one sanitized binary: verdicts equal, per-byte traces identical; mutated calls (extra/missing/wrong-kind/undefined arguments) must be diagnosed", "3 C13", "differential runtime monitoring of emitted C, inlined twin as oracle, plus exception monitor on argument errors",
@@ -29,6 +41,8 @@ CHECKS = {
          "restart rule as documented"),
  "C20": ("exploration", "each program compiled alone in a fresh process, in fresh processes under random PYTHONHASHSEED with an allocation preamble, and after 1-30 other compilations in one process; verdicts must agree and the emitted parsers, linked into one sanitized binary, must give identical per-byte traces", "3 C20", "differential runtime monitoring across perturbed compiler executions (hash seed, heap layout, process history)",
          "fresh-process hash-seed-0 compilation is the reference; textual differences are not flagged"),
+ "C17": ("exploration", "EOF-enabled programs with `end` in match / concatenation / case / wait positions and inside try blocks; end() called after every explored input and every prefix of guided inputs; events and the result compared with the reference interpreter run on input + END", "3 C17", "reference-model monitor (procedural interpreter with an END symbol) over recorded executions of sanitized emitted C",
+         "END is a symbol no data pattern matches; `end`/wait inside foreach bodies are outside the profile (undocumented)"),
  "C18": ("exploration", "the real compiler pipeline run in-process on generated sources with semantic chaos spliced in; exception-class monitor (anything but the diagnosed classes, or an unrenderable message, is internal) and a sys.monitoring PY_START step budget as logical clock", "3 C18", "exception and step monitors around real compilations",
          "diagnosed = NMFUError subclasses, LarkError, option RuntimeError; hang = step budget exceeded twice"),
  "C19": ("exploration", "icontract post-condition on the real ProgramData.load_commandline_flags (implications, exclusions, override rules read from flag metadata) over all 3^n assignments of the related flags x levels (thorough) plus cross-call monitors for level monotonicity, permutation independence and malformed options", "3 C19", "icontract runtime contract on the real function + cross-call monitors",
@@ -40,8 +54,10 @@ man = {
  "setup_cmd": "/venv/bin/pip install -q --no-index --find-links /opt/veriftools/wheels --target /verif/.deps icontract jsonschema",
  "hooks": {"guard": "NMFU_VERIF", "enable": "no source hooks: monitors are attached from the harness (icontract wrappers, sys.monitoring, recording C driver)", "baseline_off_cmd": "cd /repo && /venv/bin/python -m pytest -q -p no:cacheprovider --timeout=900", "source_commits": [], "add_only": True},
  "engines": [
-   {"name": "cdrv", "path": "vf/cdrv.py + vf/c/driver.c", "serves_properties": ["C02","C03","C05","C07","C12","C13","C14","C15","C16","C20"], "kind_free_text": "recording C driver: sanitized batch builds, event log, invariants, step meter"},
+   {"name": "cdrv", "path": "vf/cdrv.py + vf/c/driver.c", "serves_properties": ["C01","C02","C03","C04","C05","C06","C07","C08","C09","C10","C12","C13","C14","C15","C16","C17","C20"], "kind_free_text": "recording C driver: sanitized batch builds, event log, invariants, step meter"},
    {"name": "nm", "path": "vf/nm.py", "serves_properties": sorted(CHECKS), "kind_free_text": "in-process driver of the real compiler with exception classification and PY_START step meter"},
+   {"name": "ri", "path": "vf/ri.py + vf/rx.py + vf/carith.py", "serves_properties": ["C01","C08","C09","C10","C17"], "kind_free_text": "reference interpreter of the procedural reading with explicit slack checker"},
+   {"name": "am", "path": "vf/am.py", "serves_properties": ["C06"], "kind_free_text": "abstract machine over the compiled DFA"},
    {"name": "gen", "path": "vf/gen.py + vf/rx.py", "serves_properties": ["C02","C03","C05","C11","C12","C18"], "kind_free_text": "seeded program generator over the documented statement language"},
  ],
  "checks": [], "not_applicable": [],
